@@ -51,7 +51,7 @@ def streams_C06(ctx, res):
     # Tie = translator (tables regenerated from the compiled header on this run).  In addition the library's
     # own arithmetic is exercised on *every* row (mulmod / compute_shoup / Shoup product).
     flt = lambda l: l.split(" ", 1)[0] in ("mulmod", "cshoup", "mulshoup4", "addmod")
-    cov = ops_streams(ctx, res, env_extra={"VERIF_ALLROWS": "1", "VERIF_NRAND": "2"}, backends=("serial",), only=flt)
+    cov = ops_streams(ctx, res, env_extra={"VERIF_ALLROWS": "1", "VERIF_NRAND": "2", "VERIF_NOSTRUCT": "1"}, backends=("serial",), only=flt)
     # transforms, round trips and products with EVERY row in use (poly<T,8,kMaxNbModuli>): a wrong root, inverse of the
     # degree or Newton quotient in any row shows up as a failing transform/product on that row
     sys.path.insert(0, os.path.join(os.path.dirname(os.path.abspath(__file__)), "props_d"))
